@@ -242,15 +242,19 @@ CLAIMS["C20"] = (
 ADDENDA = {
     "C01": "Added: only the sentinel stops the parse (every real value incl. type 0 / empty payload goes on to the consume); no state-dependent return before the loop and none right after a consume; the length grows by the number of BYTES of the chunk (len() of a chunk not proved to be `bytes` is a different symbol).",
     "C02": "Added: the bytes handed to the transport write are never rebound before it.",
-    "C04": "Added: in the plaintext loop the framing marker is examined before any give-up return.",
+    "C04": "Added: in the plaintext loop the framing marker is examined before any give-up return. A Noise frame is consumed from the buffer only after its handler returned (a frame failing authentication stays at the head and fails again until connection_lost arrives), unless every authenticating call is handled locally.",
     "C05": "Added (R3): the one-shot guard already refuses a second caller when the phase first suspends (state left, or an in-progress marker tested by the guard is set) - no two overlapping attempts on one object.",
-    "C06": "Added (R2): the version guard is evaluated over major 0..300 x minor pairs with APIVersion as the ordered pair its dataclass comparison uses.",
-    "C07": "Added: every future completed by the closer and its callees is tested not-done first (an InvalidStateError after CLOSED would lose the callback); the client's hook invokes the callback bound by value from this start_connection() call (or an attribute every call overwrites unconditionally).",
+    "C06": "Added (R2): the version guard is evaluated over major 0..300 x minor pairs with APIVersion as the ordered pair its dataclass comparison uses. (R1) after the responses arrived nothing ends the exchange before each verdict; (R5) the parameter object the verdicts read is the client's live one - bound once on each side, handed over by reference, updated in place by the expected_name setter, not frozen.",
+    "C07": "Added: every future completed by the closer and its callees is tested not-done first (an InvalidStateError after CLOSED would lose the callback); the client's hook invokes the callback bound by value from this start_connection() call (or an attribute every call overwrites unconditionally). The client's hook passes the connection's reason to the user's callback unchanged.",
     "C09": "Added (R3): a wrong framing marker is diagnosed before any give-up return of the plaintext loop; in the closer the connect-phase interrupts are triggered before the frame helper is closed (FIFO wake-up order decides which error the connecting task reports).",
-    "C10": "Added (R2): a cancelled pong deadline is reset to None on the dispatcher path, so the `is None` arm guard fires again.",
-    "C11": "Added (R2): the request's timeout timer is cancelled or has fired on every exit.",
+    "C10": "Added (R2): a cancelled pong deadline is reset to None on the dispatcher path, so the `is None` arm guard fires again. (R1) on an open connection the dispatcher has no normal exit that avoids the parse (no per-type fast path skipping the liveness bookkeeping); (R3) a time handed to the scheduler through a local is read after the last suspension point.",
+    "C11": "Added (R2): the request's timeout timer is cancelled or has fired on every exit. The registered response callback has exactly one binding (no second, cheaper collector for some argument combination).",
     "C14": "Added (R3): from_dict keeps a field iff its key is present (or missing keys are not ignored) - never depending on the stored value.",
     "C19": "Added (R3): a failing connect phase clears the installed connection only while it is still the phase's own.",
+    "C08": "Added: the 'timer already fired' exemption of R2 holds only for a future created in the same function.",
+    "C13": "Added: the message parsed is an instance of the class looked up for this very packet; the folded value of every registration call's type set (comprehensions over the registry included) contains only server- or both-originated types.",
+    "C15": "Added: no parameter of a command method is rebound before its presence guard.",
+    "C20": "Added: every failure of mDNS start-up or request surfaces as ResolveAPIError - the only class the decision tree absorbs before falling back to the OS resolver (handler chain followed into the manager).",
 }
 
 UNDER_CONSTRUCTION = "rule set not built yet in this round (see DESIGN.md section 5 for the planned static rules)"
